@@ -682,6 +682,22 @@ Proof.
   intros o Ho. unfold obs_ok in Ho. rewrite Ho. discriminate.
 Qed.
 
+(* ------------------------------------------------------------------ the bond whose limit _update_mps reads *)
+(* bond k lies to the left of site k.  Two sites: the bond between the two active sites, in both directions and in both the
+   single-state and the state-averaged branch; one site: the bond the centre moves across. *)
+Definition active_bond (two to_right : bool) (cidx : list Z) : Z :=
+  if two then nth 1 cidx dead else if to_right then nth 0 cidx dead + 1 else nth 0 cidx dead.
+
+Theorem trunc_bond_is_active_bond_all : forall (two to_right : bool) (n imps : Z),
+  fixed_bond to_right (mtrunc_idx_single to_right (sweep_cidx two to_right n imps)) = active_bond two to_right (sweep_cidx two to_right n imps) /\
+  fixed_bond to_right (mtrunc_idx_averaged to_right (sweep_cidx two to_right n imps)) = active_bond two to_right (sweep_cidx two to_right n imps).
+Proof. intros two tr n imps. destruct two, tr; cbn; split; lia. Qed.
+
+(* every local operator handed to an eigen-solver is inverse * H_eff: the dense matrix, the diagonal used by the preconditioner
+   and the matrix-vector product all carry the factor *)
+Theorem inverse_applied_everywhere_all : inverse_on_dense = true /\ inverse_on_diagonal = true /\ inverse_on_matvec = true.
+Proof. repeat split. Qed.
+
 (* ------------------------------------------------------------------ eigen-solver dispatch *)
 From Coq Require Import String.
 (* a branch asks for the algebraically smallest eigenpair(s) *)
